@@ -2,7 +2,7 @@
    array.go:371-394 (vectors embed Array), bignum.go:147-152, lambda.go:345-354; the other atoms return
    themselves) and the fragment of the evaluator those forms need (quote, list, cons, append, coerce,
    make-array: pkg/cl/make-array.go:78-186, the let/make-hash-table/setf-gethash shape, lambda: lambda.go:210-262).
-   Executable definitions only; the defects of the Go code are transcribed, not repaired. *)
+   Executable definitions only; the model is the code WITH repo_fixes/C19-2 .. C19-9 applied. *)
 From Coq Require Import List String ZArith Bool Ascii.
 Import ListNotations.
 Open Scope string_scope.
@@ -20,7 +20,7 @@ Inductive obj : Type :=
 | Sym (s : string)                  (* includes keywords ":k" *)
 | L (xs : list obj)                 (* non-empty slip.List without Tail; the empty list is Nil *)
 | Dot (xs : list obj) (tl : obj)    (* slip.List{xs..., Tail{tl}} *)
-| Vec (xs : list obj) (et : obj) (adj : bool)                   (* *slip.Vector; et: T or Sym *)
+| Vec (xs : list obj) (et : obj) (adj : bool) (fp : option nat) (* *slip.Vector; et: T or Sym; fp: the fill pointer *)
 | Arr (dims : list nat) (xs : list obj) (et : obj) (adj : bool) (* *slip.Array, row-major elements *)
 | Hash (kvs : list (obj * obj))     (* slip.HashTable as an association list *)
 | Lam (ll : list obj) (doc : string) (body : list obj)          (* *slip.Lambda as its code tree *)
@@ -73,43 +73,51 @@ Fixpoint nest (dims : list nat) (xs : list obj) : obj :=
   end.
 
 Definition et_form (et : obj) : obj := match et with T => T | _ => quote et end.
-Definition make_array_form (dims : obj) (et : obj) (contents : obj) (adj : bool) : obj :=
-  L ([Sym "make-array"; quote dims; Sym ":element-type"; et_form et; Sym ":initial-contents"; quote contents]
-     ++ (if adj then [Sym ":adjustable"; T] else [])).
+(* array.go Array.LoadForm: :adjustable is written for both values (repo_fixes/C19-4: make-array makes an adjustable
+   array unless told otherwise); vector.go Vector.LoadForm appends :fill-pointer n (repo_fixes/C19-5) *)
+Definition make_array_form (dims : obj) (et : obj) (contents : obj) (adj : bool) (extra : list obj) : obj :=
+  L ([Sym "make-array"; quote dims; Sym ":element-type"; et_form et; Sym ":initial-contents"; quote contents;
+      Sym ":adjustable"; if adj then T else Nil] ++ extra).
+Definition fp_items (fp : option nat) : list obj :=
+  match fp with Some n => [Sym ":fill-pointer"; Fix (Z.of_nat n)] | None => [] end.
 
-(* which keys HashTable.LoadForm writes (hash-table.go:108-113): symbols quoted, strings / numbers / nil as they
-   are; an entry with any other key is silently left out *)
-Definition hash_entry_form (kv : obj * obj) : list obj :=
-  match fst kv with
-  | Sym _ => [L [Sym "setf"; L [Sym "gethash"; quote (fst kv); Sym "table"]; snd kv]]
-  | Str _ | Fix _ | Big _ | Nil => [L [Sym "setf"; L [Sym "gethash"; fst kv; Sym "table"]; snd kv]]
-  | Atom k _ => if (k =? "character")%string then [] else [L [Sym "setf"; L [Sym "gethash"; fst kv; Sym "table"]; snd kv]]
-  | _ => []
-  end.
+Definition is_keyword (s : string) : bool := match s with String ":"%char _ => true | _ => false end.
 
-(* The element switch of List.LoadForm: nil stays nil, a LoadFormer is asked, anything else panics
-   print-not-readable. *)
-Fixpoint load_form (v : obj) : res obj :=
+Definition setf_gethash (kf wf : obj) : obj := L [Sym "setf"; L [Sym "gethash"; kf; Sym "table"]; wf].
+Definition table_let (entries : list obj) : obj :=
+  L ([Sym "let"; L [L [Sym "table"; L [Sym "make-hash-table"]]]] ++ entries ++ [Sym "table"]).
+Definition setf_slot (k : string) (fw : obj) : obj := L [Sym "setf"; L [Sym "slot-value"; Sym "inst"; quote (Sym k)]; fw].
+Definition inst_let (f : string) (setfs : list obj) : obj :=
+  L ([Sym "let"; L [L [Sym "inst"; L [Sym "make-instance"; quote (Sym f)]]]] ++ setfs ++ [Sym "inst"]).
+
+(* LoadForm.  el = true: the value is an ELEMENT of another object and the form is what loadformer.go LoadFormOf
+   returns (repo_fixes/C19-2): nil stays nil, a keyword stands for itself, any other symbol is quoted, a LoadFormer is
+   asked, anything else panics print-not-readable.  el = false: the object's own LoadForm method (Symbol.LoadForm is
+   the symbol).  The elements of lists, the keys and values of hash tables (repo_fixes/C19-6, C19-7; the order of the
+   entries, repo_fixes/C19-8, is canonicalised by the harness) and the values of instance variables (instance.go
+   InstanceLoadForm, repo_fixes/C19-9) are written as elements. *)
+Fixpoint lform (el : bool) (v : obj) : res obj :=
   match v with
   | Nil => Ok Nil
-  | T | Fix _ | Atom _ _ | Str _ | Sym _ => Ok v
+  | Sym s => if el && negb (is_keyword s) then Ok (quote v) else Ok v
+  | T | Fix _ | Atom _ _ | Str _ => Ok v
   | Big z => if is_int64 z then Ok (L [Sym "coerce"; Fix z; quote (Sym "bignum")]) else Ok v
   | L xs =>
       bind ((fix go (l : list obj) : res (list obj) :=
                match l with
                | [] => Ok []
-               | a :: r => bind (load_form a) (fun b => bind (go r) (fun bs => Ok (b :: bs)))
+               | a :: r => bind (lform true a) (fun b => bind (go r) (fun bs => Ok (b :: bs)))
                end) xs)
            (fun fs => Ok (L (Sym "list" :: fs)))
   | Dot xs tl =>
-      (* list.go:114-146: the element before the tail and the tail make (cons a b); the elements before that, if
+      (* list.go List.LoadForm: the element before the tail and the tail make (cons a b); the elements before that, if
          any, are wrapped as (append (list ...) (cons a b)) *)
       bind ((fix go (l : list obj) : res (list obj) :=
                match l with
                | [] => Ok []
-               | a :: r => bind (load_form a) (fun b => bind (go r) (fun bs => Ok (b :: bs)))
+               | a :: r => bind (lform true a) (fun b => bind (go r) (fun bs => Ok (b :: bs)))
                end) xs)
-           (fun fs => bind (load_form tl) (fun ft =>
+           (fun fs => bind (lform true tl) (fun ft =>
               match rev fs with
               | [] => Err EBadForm
               | lastf :: revhead =>
@@ -119,26 +127,39 @@ Fixpoint load_form (v : obj) : res obj :=
                   | _ => Ok (L [Sym "append"; L (Sym "list" :: rev revhead); c])
                   end
               end))
-  | Vec xs et adj => Ok (make_array_form (L [Fix (Z.of_nat (List.length xs))]) et (mkL xs) adj)
-  | Arr dims xs et adj => Ok (make_array_form (mkL (map (fun d => Fix (Z.of_nat d)) dims)) et (nest dims xs) adj)
+  | Vec xs et adj fp => Ok (make_array_form (L [Fix (Z.of_nat (List.length xs))]) et (mkL xs) adj (fp_items fp))
+  | Arr dims xs et adj => Ok (make_array_form (mkL (map (fun d => Fix (Z.of_nat d)) dims)) et (nest dims xs) adj [])
   | Hash kvs =>
-      Ok (L ([Sym "let"; L [L [Sym "table"; L [Sym "make-hash-table"]]]] ++ flat_map hash_entry_form kvs ++ [Sym "table"]))
+      bind ((fix go (l : list (obj * obj)) : res (list obj) :=
+               match l with
+               | [] => Ok []
+               | (k, w) :: r => bind (lform true k) (fun kf => bind (lform true w) (fun wf => bind (go r) (fun es =>
+                                  Ok (setf_gethash kf wf :: es))))
+               end) kvs)
+           (fun es => Ok (table_let es))
   | Lam ll doc body => Ok (L ([Sym "lambda"; mkL ll] ++ (if (doc =? "")%string then [] else [Str doc]) ++ body))
   | Inst f slots =>
-      (* instance.go:56 InstanceLoadForm: the values of the instance variables are put into the form as they are *)
-      Ok (L ([Sym "let"; L [L [Sym "inst"; L [Sym "make-instance"; quote (Sym f)]]]]
-             ++ map (fun kv => L [Sym "setf"; L [Sym "slot-value"; Sym "inst"; quote (Sym (fst kv))]; snd kv]) slots
-             ++ [Sym "inst"]))
+      bind ((fix go (l : list (string * obj)) : res (list obj) :=
+               match l with
+               | [] => Ok []
+               | (k, w) :: r => bind (lform true w) (fun wf => bind (go r) (fun es => Ok (setf_slot k wf :: es)))
+               end) slots)
+           (fun es => Ok (inst_let f es))
   | Flv _ _ _ _ _ _ => Err EUnmodelled        (* Flavor.LoadForm is modelled by Session.flavor_form *)
   | Opaque _ => Err ENotReadable
   end.
+Definition load_form (v : obj) : res obj := lform false v.
+Definition elem_form (v : obj) : res obj := lform true v.
+(* one entry of a hash table's load form, one instance variable of an instance's *)
+Definition entry_form (kv : obj * obj) : res obj :=
+  bind (elem_form (fst kv)) (fun kf => bind (elem_form (snd kv)) (fun wf => Ok (setf_gethash kf wf))).
+Definition slot_form (kv : string * obj) : res obj := bind (elem_form (snd kv)) (fun wf => Ok (setf_slot (fst kv) wf)).
 
 (* ---- the evaluator fragment ------------------------------------------------------------------- *)
 
 Definition env := list (string * obj).
 Fixpoint lookup (e : env) (s : string) : option obj :=
   match e with [] => None | (k, v) :: r => if (k =? s)%string then Some v else lookup r s end.
-Definition is_keyword (s : string) : bool := match s with String ":"%char _ => true | _ => false end.
 
 (* cons / append on the slice representation of lists *)
 Definition cons_val (a b : obj) : obj :=
@@ -167,7 +188,7 @@ Definition append_val (a b : obj) : res obj :=
 Fixpoint dims_of (l : list obj) : res (list nat) :=
   match l with
   | [] => Ok []
-  | Fix z :: r => if (0 <? z)%Z then bind (dims_of r) (fun ds => Ok (Z.to_nat z :: ds)) else Err EType
+  | Fix z :: r => if (0 <=? z)%Z then bind (dims_of r) (fun ds => Ok (Z.to_nat z :: ds)) else Err EType
   | _ => Err EType
   end.
 Fixpoint key_value (k : string) (l : list obj) : option obj :=
@@ -186,7 +207,8 @@ Fixpoint flatten_dims (dims : list nat) (c : list obj) : res (list obj) :=
            | [] => Ok c
            | _ => bind (map_res (fun sub => match sub with
                                             | L ys => flatten_dims ds ys
-                                            | _ => Err EType   (* nil is not a slip.List either *)
+                                            | Nil => flatten_dims ds []     (* nil is the empty row (repo_fixes/C19-3) *)
+                                            | _ => Err EType
                                             end) c)
                        (fun ls => Ok (List.concat ls))
            end
@@ -196,8 +218,8 @@ Definition make_array_vals (vals : list obj) : res obj :=
   | [] => Err EBadForm
   | d0 :: rest =>
       bind (match d0 with
-            | Fix z => Ok [Z.to_nat z]
-            | L ds => dims_of ds
+            | Fix z => if (z <? 0)%Z then Err EType else Ok [Z.to_nat z]
+            | L ds => dims_of ds  (* non-negative fixnums (repo_fixes/C19-3) *)
             | _ => Err EType      (* nil: rank 0 is rejected *)
             end)
       (fun dims =>
@@ -211,15 +233,22 @@ Definition make_array_vals (vals : list obj) : res obj :=
         bind (match key_value ":initial-contents" rest with
               | None => Ok None
               | Some (L c) => Ok (Some c)
-              | Some _ => Err EType   (* nil is not a slip.List *)
+              | Some Nil => Ok (Some [])   (* the empty list (repo_fixes/C19-3) *)
+              | Some _ => Err EType
               end)
         (fun oc =>
          match dims with
          | [d] =>
+             (* :fill-pointer nil: none; a fixnum: that; anything else: the dimension *)
+             let fp := match key_value ":fill-pointer" rest with
+                       | None | Some Nil => None
+                       | Some (Fix z) => if (z <? 0)%Z then None else Some (Z.to_nat z)
+                       | Some _ => Some d
+                       end in
              (* NewVector: the initial contents become the elements as they are *)
              match oc with
-             | Some c => Ok (Vec c et adj)
-             | None => Ok (Vec (repeat Nil d) et adj)
+             | Some c => Ok (Vec c et adj fp)
+             | None => Ok (Vec (repeat Nil d) et adj fp)
              end
          | _ =>
              match oc with
@@ -293,7 +322,9 @@ Fixpoint obj_eqb (a b : obj) : bool :=
   | Str x, Str y | Sym x, Sym y | Opaque x, Opaque y => (x =? y)%string
   | L x, L y => all2 x y
   | Dot x t1, Dot y t2 => all2 x y && obj_eqb t1 t2
-  | Vec x e1 a1, Vec y e2 a2 => all2 x y && obj_eqb e1 e2 && Bool.eqb a1 a2
+  | Vec x e1 a1 f1, Vec y e2 a2 f2 =>
+      all2 x y && obj_eqb e1 e2 && Bool.eqb a1 a2
+      && match f1, f2 with Some m, Some n => Nat.eqb m n | None, None => true | _, _ => false end
   | Arr d1 x e1 a1, Arr d2 y e2 a2 =>
       (if list_eq_dec Nat.eq_dec d1 d2 then true else false) && all2 x y && obj_eqb e1 e2 && Bool.eqb a1 a2
   | Hash x, Hash y => all2p x y
@@ -358,7 +389,7 @@ Definition find_flavor (e : env) (vals : list obj) : res obj :=
 Fixpoint eval (e : env) (f : obj) : res obj :=
   match f with
   | Nil | T | Fix _ | Big _ | Atom _ _ | Str _ => Ok f
-  | Vec _ _ _ | Arr _ _ _ _ | Hash _ | Lam _ _ _ | Inst _ _ | Flv _ _ _ _ _ _ | Opaque _ => Ok f   (* their Eval returns the receiver *)
+  | Vec _ _ _ _ | Arr _ _ _ _ | Hash _ | Lam _ _ _ | Inst _ _ | Flv _ _ _ _ _ _ | Opaque _ => Ok f   (* their Eval returns the receiver *)
   | Sym s => if is_keyword s then Ok f
              else match lookup e s with Some v => Ok v | None => Err (EUnbound s) end
   | Dot _ _ => Err EUnmodelled
